@@ -10,9 +10,10 @@ build_main() {
   go build -overlay $GEN/overlay.json -o bin/pcheck ./cmd/pcheck
 }
 build_ks() {
-  go build -overlay $GEN/overlay_ks.json -o bin/kscheck ./cmd/kscheck
+  go build -overlay $GEN/overlay_ks.json -o bin/kscheck ./cmd/kscheck && \
+  go build -race -overlay $GEN/overlay_race.json -o bin/ksrace ./cmd/ksrace
 }
-if [ "$ID" = "C20" ] || [ "$ID" = "replay-ks" ]; then
+if [ "$ID" = "C20" ] || { [ "$ID" = "replay" ] && grep -q '"engine": "E4"' "$2" 2>/dev/null; }; then
   build_ks 2> $GEN/build_ks.log || { cat $GEN/build_ks.log >&2; echo "BUILD FAILED (kscheck) - not a verdict" >&2; exit 2; }
 fi
 build_main 2> $GEN/build.log || { cat $GEN/build.log >&2; echo "BUILD FAILED - not a verdict" >&2; exit 2; }
